@@ -26,7 +26,7 @@ func init() {
 		Assumptions: []string{"the reference receiver reads continuously (it buffers DATA) like any deployed receiver", "ids are zero-based STAT positions as documented in receive.go"},
 		Cases: func(tier string) int {
 			if tier == "thorough" {
-				return 20000
+				return 150000
 			}
 			return 1500
 		},
